@@ -6,12 +6,14 @@ package refsrv
 import (
 	"context"
 	"fmt"
+	"log/syslog"
 	"net"
 	"sync"
 
 	tq "github.com/facebookincubator/tacquito"
 	"github.com/facebookincubator/tacquito/cmds/server/config"
 	"github.com/facebookincubator/tacquito/cmds/server/config/accounters/local"
+	syslogacct "github.com/facebookincubator/tacquito/cmds/server/config/accounters/syslog"
 	"github.com/facebookincubator/tacquito/cmds/server/config/authenticators/bcrypt"
 	"github.com/facebookincubator/tacquito/cmds/server/config/authorizers/stringy"
 	"github.com/facebookincubator/tacquito/cmds/server/config/secret"
@@ -53,6 +55,9 @@ type Options struct {
 	Sink     Sink
 	Keychain Keychain
 	Format   string // "yaml" (default) or "json"
+	// Syslog, if set, makes the stack register the syslog accounter (which cmds/server/main.go leaves
+	// out) for accounters of type SYSLOG, writing to this writer
+	Syslog *syslog.Writer
 	// Ctx, if set, is the context handed to the Loader (cmds/server/main.go gives the Loader and Serve
 	// the same one); otherwise the stack gets a context of its own, cancelled by Close
 	Ctx context.Context
@@ -107,7 +112,11 @@ func New(doc []byte, o Options) (*Stack, error) {
 		parent = context.Background()
 	}
 	ctx, cancel := context.WithCancel(parent)
-	l, err := loader.NewLoader(ctx, um,
+	var extra []loader.Option
+	if o.Syslog != nil {
+		extra = append(extra, loader.RegisterAccounter(config.SYSLOG, syslogacct.New(noCtx{o.Logger}, o.Syslog)))
+	}
+	l, err := loader.NewLoader(ctx, um, append(extra,
 		loader.SetLoggerProvider(o.Logger),
 		loader.SetKeychainProvider(secret.New()),
 		loader.SetConfigProvider(config.New()),
@@ -116,13 +125,23 @@ func New(doc []byte, o Options) (*Stack, error) {
 		loader.RegisterHandlerType(config.START, handlers.NewStart(o.Logger)),
 		loader.RegisterAuthenticator(config.BCRYPT, bcrypt.New(o.Logger, o.Keychain)),
 		loader.RegisterAccounter(config.FILE, acct),
-	)
+	)...)
 	if err != nil {
 		cancel()
 		return nil, err
 	}
 	l.BlockUntilLoaded()
 	return &Stack{Loader: l, um: um, cancel: cancel}, nil
+}
+
+// noCtx adapts the logger to the context-less interface of the syslog accounter.
+type noCtx struct{ l Logger }
+
+func (n noCtx) Infof(format string, args ...interface{}) {
+	n.l.Infof(context.Background(), format, args...)
+}
+func (n noCtx) Errorf(format string, args ...interface{}) {
+	n.l.Errorf(context.Background(), format, args...)
 }
 
 // Reload feeds another document to the same unmarshaller and returns once it is in force (or was
